@@ -313,10 +313,12 @@ func c11Run(c *harness.Check, cs callCase) string {
 
 var c11Strings = []string{"", "a", "abc", "Hello World", "héllo", "日本語", "éa", "ÀB", "  x  ", "\tpad\n", "a,b,,c", "x y z", "12", "-5", "007", "0", "aXbXc", "ß", "a😀b", "abcabc", "-", "+", "--", "-x", ".", "ırmak", "ſtraße", "ɐbc", "ɑé", "ɡ", "ⱥx", "ǆemal", "ßa", "ŉo",
 	// blanks other than space, tab, LF and CR at the ends: only those four are trimmed by default
-	"\u00a0core\u00a0", "\vx\f", "\u2003em\u3000", "\u0085n", " \u00a0 x \u2028"}
+	"\u00a0core\u00a0", "\vx\f", "\u2003em\u3000", "\u0085n", " \u00a0 x \u2028",
+	// quotes inside, before multi-byte characters: written with a backslash when the quote is the delimiter
+	"l'été", "it's", "say \"日本\"", "q\"é", "'é'", "a'b\"c日", "\"", "'", "''", "é'", "\"\"é\"\""}
 
 func c11StrArgs() []V {
-	return []V{refint.StrV(""), refint.StrV(" "), refint.StrV(","), refint.StrV("a"), refint.StrV("X"), refint.StrV("é"), refint.StrV("..."), refint.StrV("ab"), refint.StrV("日")}
+	return []V{refint.StrV(""), refint.StrV(" "), refint.StrV(","), refint.StrV("a"), refint.StrV("X"), refint.StrV("é"), refint.StrV("..."), refint.StrV("ab"), refint.StrV("日"), refint.StrV("'é"), refint.StrV("\""), refint.StrV("'")}
 }
 
 func c11Arrays() []V {
